@@ -34,7 +34,9 @@ def spec(tier):
     # percent-decoding and query-string iteration (harness shared with C13)
     for n in ([0, 1, 3, 5] if quick else range(0, 10)):
         u = "uri_N%d" % n
-        units[u] = dict(harness=["C13/h_uri.c"], sources=URI_SRC, stubs=["base.c", "alloc_direct.c", "memchr.c", "mem0.c"], defines={"N": n, "PRE": 1})
+        units[u] = dict(harness=["C13/h_uri.c"], sources=[x for x in URI_SRC if x != "source/uri.c"], stubs=["base.c", "alloc_direct.c", "memchr.c", "mem0.c"], defines={"N": n, "PRE": 1})
+        jobs.append(dict(unit=u, entry="h_uri_parse_arbitrary", unwind=n + 4, unwind_is_property=True, bounds="URI text of %d arbitrary bytes" % n,
+                         what="URI parse on arbitrary bytes (state functions run in sequence; the table dispatcher is replaced, see C13): no out-of-bounds access, views inside the copy, zeroed on failure"))
         jobs.append(dict(unit=u, entry="h_uri_decode_arbitrary", unwind=n + 5, bounds="%d arbitrary bytes" % n, what="percent-decoding on arbitrary bytes"))
         jobs.append(dict(unit=u, entry="h_query_iteration", unwind=n + 5, bounds="query string of %d arbitrary bytes" % n, what="query-string iteration on arbitrary bytes; views inside the input"))
     for n in ([0, 1, 2, 4, 7] if quick else range(0, 12)):
@@ -46,7 +48,7 @@ def spec(tier):
                            "byte_buf.c s_read_unsigned", "uri.c: aws_byte_buf_append_decoding_uri, aws_query_string_next_param/params", "host_utils.c aws_host_utils_is_ipv6"],
         bounds="XML documents of 3..5 (quick) / 2..7 bytes; base64 text up to 36; hex/UTF-8 up to 8; digits up to 21; URI/query up to 5/9; IPv6 up to 7/11",
         stubs=["base.c, alloc_direct.c, memchr.c, memcmp_loop.c, mem0.c", "stubs/simd lane models for the AVX2 decoder"],
-        out=["NOT DECIDED (encodings do not fit: >12 GB or >240 s even at 2 input bytes): JSON (cJSON), CBOR decoder, aws_uri_init_parse, "
+        out=["NOT DECIDED (encodings do not fit: >12 GB or >240 s even at 2 input bytes): JSON (cJSON), CBOR decoder, the URI table dispatcher s_init_from_uri_str, "
              "s_advance_to_closing_tag (XML body / skip paths)", "date-time parsing, UUID, IPv4 (sscanf-based)", "inputs longer than the bounds"],
         assumptions=["XML callback behaviour restricted to the two scripts per job (abort; descend then abort)"])
     pre = [dict(name="SIMD models == hardware intrinsics", timeout=120,
